@@ -78,7 +78,8 @@ def compare(ck, got, exp, site, tol=1e-7):
 def seg_case(draw, tier="quick"):
     what = draw(st.sampled_from(["seg_seg2", "seg_line2", "seg_seg3", "seg_plane3", "seg_seg2_coll"]))
     return {"what": what, "v": [draw(C.ints(5)) for _ in range(12)], "mode": draw(st.sampled_from(["generic", "generic", "touch_endpoint", "collinear", "parallel", "T"])),
-            "frame": [draw(C.ints(3)) for _ in range(9)], "t": draw(st.integers(-2, 4)), "skew": draw(st.booleans())}
+            "frame": [draw(C.ints(3)) for _ in range(9)], "t": draw(st.integers(-2, 4)), "skew": draw(st.booleans()),
+            "derive": draw(st.sampled_from(Z.DERIVATIONS)), "move": [draw(st.integers(-4, 4)) for _ in range(3)]}
 
 
 def seg_pair(c):
@@ -112,6 +113,12 @@ def run_seg(c):
     if what in ("seg_seg2", "seg_seg2_coll"):
         res = X.seg_seg_intersection(a, b, cc, d)
         s1, s2 = Segment(P(a), P(b)), Segment(P(cc), P(d))
+        if what == "seg_seg2" and c.get("derive"):
+            # the first operand is obtained by moving a segment that has already been used
+            s1, f = call(f"{what}:derive", Z.derive_moved, lambda rows: Segment(Point(rows[0]), Point(rows[1])), np.stack([hom(a), hom(b)]), c["derive"], c.get("move", [1, 2, 3]),
+                         lambda rows0: Point(rows0[0]), lambda s0: s0.intersect(Segment(P(cc), P(d))))
+            if f:
+                return [f]
         if what == "seg_seg2_coll":
             # second position: the same pair shifted (so same answer shifted), third: far apart (no intersection)
             sh = [Fraction(7), Fraction(-3)]
@@ -232,7 +239,8 @@ def poly_case(draw, tier="quick"):
     idx = sorted(draw(st.permutations(range(16)))[:n])
     return {"idx": idx, "radii": [draw(st.integers(1, 3)) for _ in range(n)], "off": [draw(C.ints(4)), draw(C.ints(4))], "dim": draw(st.sampled_from([2, 2, 3])),
             "frame": [draw(C.ints(3)) for _ in range(9)], "other": draw(st.sampled_from(["line", "segment"])), "mode": draw(st.sampled_from(["generic", "vertex", "two_vertices", "along_edge", "miss", "inplane", "parallel"])),
-            "q": [draw(st.integers(-8, 16)) for _ in range(4)], "k": draw(st.integers(0, 5)), "h": draw(st.sampled_from([1, 2, -1, 3]))}
+            "q": [draw(st.integers(-8, 16)) for _ in range(4)], "k": draw(st.integers(0, 5)), "h": draw(st.sampled_from([1, 2, -1, 3])),
+            "derive": draw(st.sampled_from(Z.DERIVATIONS)), "move": [draw(st.integers(-4, 4)) for _ in range(3)]}
 
 
 def run_poly(c):
@@ -257,7 +265,10 @@ def run_poly(c):
     if c["dim"] == 2:
         if mode in ("inplane", "parallel"):
             raise Skip("3D only")
-        poly = Polygon(np.array([hom(p) for p in pts]))
+        poly, f = call("polygon2:construct", Z.derive_moved, lambda rows: Polygon(rows), np.array([hom(p) for p in pts]), c.get("derive"), c.get("move", [1, 2, 3]),
+                       lambda rows0: Point(rows0[0]), lambda p0: p0.intersect(Line(P(A), P(B))))
+        if f:
+            return [f]
         dd = [B[0] - A[0], B[1] - A[1]]
         overlap = False
         exp = []
@@ -298,7 +309,10 @@ def run_poly(c):
         raise Skip("degenerate frame")
     nrm = np.cross(u, w)
     e3 = lambda p: o + float(p[0]) * u + float(p[1]) * w  # noqa: E731
-    poly = Polygon(np.array([np.append(e3(p), 1.0) for p in pts]))
+    poly, f = call("polygon3:construct", Z.derive_moved, lambda rows: Polygon(rows), np.array([np.append(e3(p), 1.0) for p in pts]), c.get("derive"), c.get("move", [1, 2, 3]),
+                   lambda rows0: Point(rows0[0]), lambda p0: p0.intersect(Line(P(e3(A) + nrm), P(e3(A) - nrm))))
+    if f:
+        return [f]
     h = c["h"]
     site = f"polygon3:{c['other']}:{mode}"
     if mode == "inplane":
@@ -329,6 +343,12 @@ def run_poly(c):
 
 
 def poly_labels(c):
+    if c.get("derive"):
+        return _poly_labels(c) + ["derived-from-a-queried-object"]
+    return _poly_labels(c)
+
+
+def _poly_labels(c):
     return [f"dim{c['dim']}", c["other"], c["mode"]]
 
 
@@ -337,7 +357,8 @@ def poly_labels(c):
 def cub_case(draw, tier="quick"):
     return {"v": [draw(C.ints(4)) for _ in range(9)], "p": [draw(st.integers(-2, 4)) for _ in range(3)], "q": [draw(st.integers(-2, 4)) for _ in range(3)],
             "mode": draw(st.sampled_from(["generic", "generic", "through_vertices", "through_edge_midpoints", "parallel_to_face", "in_face_plane", "miss"])),
-            "other": draw(st.sampled_from(["line", "segment"])), "coll": draw(st.sampled_from([False, False, True]))}
+            "other": draw(st.sampled_from(["line", "segment"])), "coll": draw(st.sampled_from([False, False, True])),
+            "derive": draw(st.sampled_from(Z.DERIVATIONS)), "move": [draw(st.integers(-4, 4)) for _ in range(3)]}
 
 
 def run_cub(c):
@@ -349,7 +370,8 @@ def run_cub(c):
         raise Skip("degenerate")
     x = np.cross(u, w)
     o = np.array(v[6:9], float)
-    cub, f = call("Cuboid", lambda: Cuboid(P(o), P(o + u), P(o + w), P(o + x)))
+    cub, f = call("Cuboid", Z.derive_moved, lambda rows: Cuboid(*[Point(r) for r in rows]), np.array([np.append(q, 1.0) for q in (o, o + u, o + w, o + x)]),
+                  c.get("derive"), c.get("move", [1, 2, 3]), None, lambda c0: c0.intersect(Line(P(o), P(o + u + w + x))))
     if f:
         return [f]
     mode = c["mode"]
@@ -429,7 +451,7 @@ LAWS = [
         "segment.intersect(segment|line|plane) in 2D/3D incl. endpoint contact, collinear, parallel, skew, collections", shard=300),
     Law("polygons", lambda tier: poly_case(tier), run_poly, lambda c: c["mode"] != "generic", poly_labels, {"quick": 2000, "thorough": 40000},
         "polygon.intersect(line|segment): boundary points in 2D, piercing point in 3D, vertices/edges/in-plane/parallel/miss", shard=200),
-    Law("cuboids", lambda tier: cub_case(tier), run_cub, lambda c: c["mode"] != "generic", lambda c: [c["other"], c["mode"]], {"quick": 600, "thorough": 10000},
+    Law("cuboids", lambda tier: cub_case(tier), run_cub, lambda c: c["mode"] != "generic", lambda c: [c["other"], c["mode"]] + (["derived-from-a-queried-object"] if c.get("derive") else []), {"quick": 600, "thorough": 10000},
         "cuboid.intersect(line|segment) vs slab method: two face points, vertex/edge contact once, parallel, in a face plane, miss", shard=60),
 ]
 
